@@ -194,6 +194,7 @@ type Features struct {
 	CaseVar    bool
 	Indent     bool
 	ForColonOK bool
+	ForOwnLine bool // block labels and the count variable may stand on lines of their own before the FOR line
 }
 
 var AllFeatures = Features{Comments: true, Blank: true, Colons: true, OwnLine: true, CaseVar: true, Indent: true}
@@ -277,9 +278,12 @@ func Render(p Program, st Style, f Features) string {
 		case KAssert:
 			emit(";assert" + s.ws(true) + s.expr(it.Expr, rn))
 		case KFor:
-			l := indent() + s.labels(it.Labels, rn, false, false)
+			l := indent() + s.labels(it.Labels, rn, false, f.ForOwnLine)
 			if it.Counter != "" {
 				l += rn[it.Counter] + s.ws(true)
+				if f.ForOwnLine && s.pick(6) == 1 {
+					l += "\n"
+				}
 			}
 			l += caseOf("for", ck()) + s.ws(true) + s.expr(it.Expr, rn)
 			emit(l + trail())
